@@ -72,12 +72,13 @@ def h_dm22(ex, which):
     ex.witness()
 
 
-def h_dm1(ex, n, cycle='1', dll='j1939-21', sym_lamps=2, cycles=2, stop=True):
+def h_dm1(ex, n, cycle='1', dll='j1939-21', sym_lamps=2, cycles=2, stop=True, claim=None):
     """sender A (Dm1.start_send) -> subscriber on B and C; n trouble codes"""
     w = W.World(ex, mode='interleave')
-    sa = Stack(w, 'A', 0x10, dll=dll)
+    sa = Stack(w, 'A', 0x10 if claim is None else 0x90, dll=dll, claim=claim)
     sb = Stack(w, 'B', 0x20, dll=dll)
     sc = Stack(w, 'C', 0x30, dll=dll)
+    SA_ADDR = sa.addr
     lamps = {}
     for i, k in enumerate(KEYS):
         lamps[k] = ex.fresh_int('lamp_' + k, 0, 4) if i < sym_lamps else (i % 5)
@@ -113,7 +114,7 @@ def h_dm1(ex, n, cycle='1', dll='j1939-21', sym_lamps=2, cycles=2, stop=True):
     for name in ('B', 'C'):
         ex.claim('dm1.received_every_cycle', len(got[name]) == cycles, {'listener': name, 'got': len(got[name]), 'want': cycles, 'n': n})
         for g in got[name]:
-            ex.claim('dm1.sa', g['sa'] == 0x10)
+            ex.claim('dm1.sa', g['sa'] == SA_ADDR)
             ex.claim('dm1.lamps', all(g['lamps'].get(k) == conc_lamps[k] for k in KEYS), {'listener': name})
             ok = len(g['dtcs']) == n
             ex.claim('dm1.dtc_count', ok, {'got': len(g['dtcs']), 'want': n})
@@ -125,11 +126,11 @@ def h_dm1(ex, n, cycle='1', dll='j1939-21', sym_lamps=2, cycles=2, stop=True):
     # payload bytes on the bus per the reference layout (single frame only: data of the one frame)
     want = dm.dm1_payload(conc_lamps, dtcs)
     if dll == 'j1939-21' and len(want) <= 8:
-        frames = [f for f in w.log if f['src'] == 'A']
+        frames = [f for f in w.log if f['src'] == 'A' and bool(ids.id_fields(f['id'])['pf'] == 0xFE)]
         ex.claim('dm1.frames', len(frames) == cycles)
         for f in frames:
             fld = ids.id_fields(f['id'])
-            ex.claim('dm1.id', sym_and(fld['pf'] == 0xFE, fld['ps'] == 0xCA, fld['sa'] == 0x10, fld['dp'] == 0))
+            ex.claim('dm1.id', sym_and(fld['pf'] == 0xFE, fld['ps'] == 0xCA, fld['sa'] == SA_ADDR, fld['dp'] == 0))
             ex.claim('dm1.payload_bytes', sym_eq_seq(f['data'], want))
     ex.claim('job_threads_alive', sa.alive() and sb.alive() and sc.alive())
     ex.observe('rx', [[k, [[g['sa'], sorted(g['lamps'].items()), [[d['spn'], d['fmi'], d['oc']] for d in g['dtcs']]] for g in v]] for k, v in sorted(got.items())])
@@ -197,6 +198,9 @@ def jobs(tier):
     out.append(Job('C16', 'c16:h_dm1', {'n': 1, 'cycle': '1/5', 'sym_lamps': 1, 'cycles': 3}, W=40, wall=300, validate=1))
     for n in ([1, 14, 15] if q else [1, 2, 7, 14, 15, 16, 40, 100]):
         out.append(Job('C16', 'c16:h_dm1', {'n': n, 'dll': 'j1939-22', 'cycle': '1' if n <= 40 else '4', 'sym_lamps': 2, 'cycles': 2}, W=40, wall=300 if q else 1800, max_paths=5000, validate=1))
+    # sender that went through the real claim procedure: its one-shot claim timer re-arms every 0.5 s next to the DM1 timer
+    out.append(Job('C16', 'c16:h_dm1', {'n': 1, 'cycle': '1/5', 'sym_lamps': 1, 'cycles': 12, 'claim': 'normal_veto'}, W=40, wall=300, validate=1))
+    out.append(Job('C16', 'c16:h_dm1', {'n': 2, 'cycle': '3/10', 'sym_lamps': 1, 'cycles': 8, 'claim': 'normal_immediate'}, W=40, wall=300, validate=1))
     out.append(Job('C16', 'c16:h_dm1_overlap', {'n': 3, 'cycle': '3/50', 'cycles': 5}, W=40, wall=300, validate=1))
     out.append(Job('C16', 'c16:h_dm1_overlap', {'n': 5, 'cycle': '1/10', 'cycles': 6}, W=40, wall=300, validate=1))
     return out
